@@ -328,13 +328,61 @@ Qed.
 Lemma har_entry_of_vcr san c i : har_entry san c i = har_of (vcr_entry san c i).
 Proof. reflexivity. Qed.
 
-(* the HAR writer cannot write an entry whose URL had userinfo when the marker is the default one *)
-Lemma har_raises_on_sanitised_userinfo ui host i :
-  no_at host = true -> u_netloc (i_uri i) = ui ++ AT :: host -> har_entry true default_config i = None.
+(* before repo fix 8fd7266e the HAR writer raised on every entry whose URL had userinfo (default marker) *)
+Lemma har_before_fix_raises ui host i :
+  no_at host = true -> u_netloc (i_uri i) = ui ++ AT :: host -> har_entry_before_8fd7266e true default_config i = None.
 Proof.
-  intros Hh Hn. unfold har_entry, vcr_entry, har_of, sanitize_url. cbn [u_netloc].
+  intros Hh Hn. unfold har_entry_before_8fd7266e, vcr_entry, har_of_before_8fd7266e, sanitize_url. cbn [u_netloc].
   rewrite Hn, (userinfo_replaced _ ui host Hh). reflexivity.
 Qed.
+
+Lemma first_values_some h : values_nonempty h = true -> exists t, first_values h = Some t.
+Proof.
+  induction h as [|[k vs] h IH]; cbn [values_nonempty forallb first_values snd fst]; intros H; [eexists; reflexivity|].
+  apply andb_true_iff in H. destruct H as [H1 H2]. destruct vs as [|v vs]; [discriminate|].
+  destruct (IH H2) as [t ->]. eexists; reflexivity.
+Qed.
+
+Lemma values_nonempty_sanitize c h : values_nonempty h = true -> values_nonempty (sanitize_mdict c h) = true.
+Proof.
+  unfold values_nonempty, sanitize_mdict. induction h as [|[k vs] h IH]; [reflexivity|].
+  cbn [map forallb snd]. intros H. apply andb_true_iff in H. destruct H as [H1 H2].
+  rewrite (IH H2), andb_true_r. destruct (is_sensitive c k); [reflexivity | exact H1].
+Qed.
+
+(* now: the entry is written; its URL carries the marker instead of the userinfo, and every query
+   record with a sensitive name carries the marker *)
+Lemma har_userinfo_entry_written c ui host i :
+  no_at host = true -> u_netloc (i_uri i) = ui ++ AT :: host -> headers_have_values i = true ->
+  exists e, har_entry true c i = Some e /\ u_netloc (h_url e) = repl c ++ AT :: host /\
+            h_url e = sanitize_url c (i_uri i) /\ query_clean c (h_query e) = true.
+Proof.
+  intros Hh Hn Hv. unfold headers_have_values in Hv. apply andb_true_iff in Hv. destruct Hv as [Hq Hs].
+  unfold har_entry, vcr_entry, har_of, har_body.
+  destruct (first_values_some _ (values_nonempty_sanitize c _ Hq)) as [rqf ->].
+  destruct (i_resp_headers i) as [rs|]; cbn [option_map].
+  - destruct (first_values_some _ (values_nonempty_sanitize c _ Hs)) as [rsf ->].
+    eexists. split; [reflexivity|]. cbn [h_url h_query]. repeat split.
+    + unfold sanitize_url. cbn [u_netloc]. rewrite Hn. apply userinfo_replaced. exact Hh.
+    + apply url_query_clean.
+  - eexists. split; [reflexivity|]. cbn [h_url h_query]. repeat split.
+    + unfold sanitize_url. cbn [u_netloc]. rewrite Hn. apply userinfo_replaced. exact Hh.
+    + apply url_query_clean.
+Qed.
+
+(* one concrete interaction: old code raises, current code writes the redacted entry *)
+Definition w_har_interaction : interaction :=
+  {| i_uri := {| u_scheme := [104;116;116;112]%N; u_netloc := [117;58;112;64;104]%N; u_path := [47]%N;
+                 u_query := [([116;111;107;101;110]%N, [115]%N)]; u_fragment := [] |};
+     i_req_headers := [(s_Authorization, [[115]%N])]; i_resp_headers := None; i_open := [] |}.
+
+Lemma har_fix_witness :
+  har_entry_before_8fd7266e true default_config w_har_interaction = None /\
+  exists e, har_entry true default_config w_har_interaction = Some e /\
+            u_netloc (h_url e) = default_repl ++ [64;104]%N /\
+            h_query e = [([116;111;107;101;110]%N, default_repl)] /\
+            h_req_headers e = [(s_Authorization, default_repl)].
+Proof. split; [vm_compute; reflexivity|]. eexists. split; [vm_compute; reflexivity|]. repeat split. Qed.
 
 Lemma har_entry_ni c i i' : interaction_public c i = interaction_public c i' -> har_entry true c i = har_entry true c i'.
 Proof. intros E. rewrite !har_entry_of_vcr, (vcr_entry_ni c i i' E). reflexivity. Qed.
